@@ -1,12 +1,12 @@
-from . import decprops
+from . import decprops, encprops
 
 
 def all_checks():
     out = {}
-    for mod in (decprops,):
+    for mod in (decprops, encprops):
         for name in dir(mod):
             c = getattr(mod, name)
-            if isinstance(c, type) and getattr(c, "prop", None):
+            if isinstance(c, type) and getattr(c, "prop", None) and c.__module__ == mod.__name__:
                 out[c.prop] = c()
     return out
 
